@@ -319,7 +319,11 @@ def build(template_path, repo, variant="strict"):
                 body_lines = _toks_to_lines(body, relfile, src_line_of)
             # hints (line based on rewritten body)
             for (pos, nth, anchor, content, o2) in opts["hints"]:
-                hits = [q for q, (t, o) in enumerate(body_lines) if anchor in t and not isinstance(o, tuple)]
+                if anchor.startswith("^"):
+                    # `^text`: the whole (stripped) line equals text
+                    hits = [q for q, (t, o) in enumerate(body_lines) if t.strip() == anchor[1:] and not isinstance(o, tuple)]
+                else:
+                    hits = [q for q, (t, o) in enumerate(body_lines) if anchor in t and not isinstance(o, tuple)]
                 if len(hits) < nth:
                     res.lost.append("%s: hint anchor `%s` #%d not found" % (where, anchor, nth))
                     continue
